@@ -80,12 +80,12 @@ func findDefinitionTarget(journal *ast.Journal, pos protocol.Position) *definiti
 				}
 			}
 
-			if p.Amount != nil && p.Amount.Commodity.Symbol != "" {
-				if positionInRange(pos, p.Amount.Commodity.Range) {
+			for _, c := range postingCommodities(p) {
+				if c.Symbol != "" && positionInRange(pos, c.Range) {
 					return &definitionTarget{
 						context:     DefContextCommodity,
-						name:        p.Amount.Commodity.Symbol,
-						symbolRange: astRangeToProtocol(p.Amount.Commodity.Range),
+						name:        c.Symbol,
+						symbolRange: astRangeToProtocol(c.Range),
 					}
 				}
 			}
